@@ -56,9 +56,14 @@ def budget(tier):
     return {"cases": 320000, "workers": 16, "watchdog_s": 3600, "budget_s": 600}
 
 
-def gen_final_op(rng, g, cols, eng):
+def gen_final_op(rng, g, cols, eng, custom=True):
     """A unary op spec (without target) valid on ``cols``; joins carry their fixed operand program."""
-    kind = rng.choice(["calc", "proj", "sel", "dedup", "sort", "slice", "join", "join", "proj", "sel"])
+    kind = rng.choice(["calc", "proj", "sel", "dedup", "sort", "slice", "join", "join", "proj", "sel", "calc", "proj", "sel", "dedup", "sort", "slice", "join", "join", "proj", "sel", "cap", "rev"])
+    if kind in ("cap", "rev") and not custom:
+        kind = "sel"
+    if kind in ("cap", "rev"):
+        # user-defined operations requested with a preferred engine (run by the iteration engines' subclass)
+        return {"kind": kind, "node": ["cap", ["leaf", "__T__"], rng.choice([0, 1, 2, 3, 5])] if kind == "cap" else ["rev", ["leaf", "__T__"]]}
     if kind == "join":
         fixed_engine = rng.choice(ENG)
         hidden_pool = list("abcd")
@@ -102,7 +107,7 @@ def sort_over_sort_case(rng):
             "final": {"kind": "sort", "node": ["sort", ["leaf", "__T__"], terms, None]}, "directed": "sort_over_sort"}
 
 
-def gen_case(rng, tier):
+def gen_case(rng, tier, custom_final=True):
     if rng.random() < 0.05:
         return sort_over_sort_case(rng)
     cfg = gen.Cfg(
@@ -132,7 +137,7 @@ def gen_case(rng, tier):
                 if nxt:
                     state = nxt
     prog, cols, eng = state
-    final = gen_final_op(rng, g, cols, eng)
+    final = gen_final_op(rng, g, cols, eng, custom=custom_final)
     return {"leaves": g.leaves, "prog": prog, "cols": sorted(cols), "engine": eng, "final": final}
 
 
@@ -142,7 +147,7 @@ def final_prog(case, opt):
         return ["join", case["prog"], f["fixed"], f["pred"], opt]
     node = list(f["node"])
     node[1] = case["prog"]
-    if f["kind"] == "slice":
+    if f["kind"] in ("slice", "cap", "rev"):
         return node + [opt]  # ["slice", sub, start, stop, opt]
     node[-1] = opt
     return node
@@ -182,6 +187,14 @@ def apply_final(case, base_rel, b, engines, opt):
         return base_rel.sorted([R.SortTerm(b.elib(e), asc) for e, asc in node[2]], **kw)
     if k == "slice":
         return R.Slice(node[2], node[3]).apply(base_rel, **kw)
+    if k == "cap":
+        from ..ext import RowCap
+
+        return RowCap(node[2]).apply(base_rel, **kw)
+    if k == "rev":
+        from ..ext import Reverse
+
+        return Reverse().apply(base_rel, **kw)
     raise AssertionError(k)
 
 
@@ -258,6 +271,9 @@ def run_case(case):
             join_elides = base.is_join_identity or fixed_rel.is_join_identity
         else:
             combos = list(itertools.product(ENG, (True, False), (False, True), (False, True)))
+            if f["kind"] in ("cap", "rev"):
+                # only the iteration engines here implement the hook for user-defined operations
+                combos = [x for x in combos if not x[0].startswith("sql")]
             join_elides = False
         # the same requests are issued on the freshly built tree and on the tree a Processor returned
         # for it (its transfers then carry payloads, which backtracking must not keep)
